@@ -64,9 +64,12 @@ def time_value_wrapper(f):
                 a_timevalue = timevalue(a_timevalue)
             if a_timevalue in ERROR_CODES:
                 return a_timevalue
+            if not math.isfinite(a_timevalue):
+                # 'inf', 'nan' and '1e999' are text
+                return VALUE_ERROR
         if a_timevalue is None:
             a_timevalue = 0
-        elif a_timevalue < 0:
+        elif a_timevalue < 0 or a_timevalue >= DATE_MAX_INT:
             return NUM_ERROR
         return f(a_timevalue)
     return wrapped
